@@ -60,6 +60,30 @@ def _other_isomers(m):
     return x if changed else None
 
 
+def sn2_specs():
+    """centres whose broken / formed / fleeting descriptors name *different* atom sets (an SN2 carbon: the broken descriptor names the
+    leaving group, the formed one the nucleophile, the fleeting one both), alone and next to a bond whose changes name different
+    substituents: a subset S may hold one of the descriptors of a centre and not the other"""
+    out = []
+    atoms = [(0, "C"), (1, "H"), (2, "H"), (3, "Cl"), (4, "F")]
+    bonds = [(0, 1), (0, 2), (0, 3, "BROKEN"), (0, 4, "FORMED")]
+    tb = ("Tetrahedral", (0, 1, 2, None, 3), 1)
+    tf = ("Tetrahedral", (0, 1, 2, None, 4), -1)
+    tt = ("TrigonalBipyramidal", (0, 3, 4, 1, 2, None), 1)
+    for kd in ({"BROKEN": tb, "FORMED": tf}, {"BROKEN": tb, "FORMED": tf, "FLEETING": tt}, {"FORMED": tf, "FLEETING": tt},
+               {"BROKEN": tb, "FLEETING": tt}):
+        out.append(U.mk(SCRG, atoms, bonds, achg={0: kd}))
+    # a double bond 0=1 that stays, one substituent of atom 1 exchanged (4 leaves, 5 arrives): the broken descriptor names 4, the formed one 5
+    atoms = [(0, "C"), (1, "C"), (2, "H"), (3, "F"), (4, "Cl"), (5, "Br")]
+    bonds = [(0, 1), (0, 2), (0, 3), (1, 4, "BROKEN"), (1, 5, "FORMED")]
+    pb = ("PlanarBond", (2, 3, 0, 1, 4, None), 0)
+    pf = ("PlanarBond", (2, 3, 0, 1, None, 5), 0)
+    out.append(U.mk(SCRG, atoms, bonds, bchg={(0, 1): {"BROKEN": pb, "FORMED": pf}}))
+    out.append(U.mk(SCRG, atoms, bonds, bchg={(0, 1): {"BROKEN": pb, "FORMED": pf}},
+                    achg={1: {"BROKEN": ("Tetrahedral", (1, 0, 4, None, None), 1), "FORMED": ("Tetrahedral", (1, 0, 5, None, None), 1)}}))
+    return out
+
+
 @lru_cache(None)
 def specs(tier):
     S = []
@@ -73,6 +97,7 @@ def specs(tier):
     S += [g for g in U.scrg_universe("quick") if g.atoms and len(g.atoms) <= 7][::(2 if tier == "quick" else 1)]
     S += [g for g in U.stars_extra() if len(g.atoms) <= 5]
     S += [U.to_kind(g, SCRG) for g in U.stars_extra() if len(g.atoms) <= 5][::3]
+    S += sn2_specs()
     out = []
     for i, g in enumerate(S):
         h = g.copy()
